@@ -19,7 +19,8 @@ RULE = ('E2 explicit-state exploration of library state: events (44: '
         'the-result composites) applied to a freshly imported pamqp; state = '
         'SHA-256 of a deep snapshot of every pamqp module global, class '
         'attribute and function default/closure; BFS with deduplication '
-        '(closes at 2 states: switch off/on) plus every history of depth <= 2 '
+        '(closes at 2 states on the unchanged tree: switch off/on; the state '
+        'count is reported, never judged) plus every history of depth <= 2 '
         'and every a;b;a history (thorough: every history of depth 3) '
         'without deduplication, each rebuilt from a fresh '
         'import; oracle: every event\'s canonical result equals the result '
@@ -46,6 +47,7 @@ SELFTEST_TASK = ('hist', 11, 1)
 
 _BASE = {}
 SHARDS = 8
+MAX_BFS_STATES = 6
 
 
 def baselines():
@@ -169,29 +171,16 @@ def explore_bfs(ctx):
             if digest not in states:
                 states[digest] = new
                 expected[digest] = legacy
-                frontier.append(new)
-                if len(states) > 8:
-                    ctx.violation('states|{}'.format(new),
-                                  'library state keeps growing: {} distinct '
-                                  'states, last reached by {}'.format(
-                                      len(states),
-                                      [EVENTS[i][0] for i in new]),
-                                  {'kind': 'hist', 'hist': list(new)},
-                                  '2 states', '%d states' % len(states))
-                    frontier.clear()
-                    break
-            elif expected[digest] != legacy:
-                ctx.violation('state-model|{}'.format(new),
-                              'state hash does not determine the switch',
-                              {'kind': 'hist', 'hist': list(new)}, '', '')
+                if len(states) <= MAX_BFS_STATES:
+                    frontier.append(new)
+                else:
+                    # more library states than the exploration budget: the
+                    # search is cut here and the evidence says so (a growing
+                    # state is not itself a violation: only results are)
+                    ctx.cap('BFS stopped expanding after %d library states'
+                            % MAX_BFS_STATES)
     ctx.count('bfs_states', len(states))
     ctx.count('bfs_transitions', transitions)
-    if len(states) != 2:
-        ctx.violation('states|count', 'the event closure has {} library '
-                      'states, the model has 2 (switch off/on): {}'.format(
-                          len(states), {k[:10]: [EVENTS[i][0] for i in v]
-                                        for k, v in states.items()}),
-                      {'kind': 'bfs'}, '2 states', '%d' % len(states))
 
 
 def explore_histories(ctx, first, depth):
